@@ -30,7 +30,7 @@ def _count_like(e):
 
 
 def _tiny(c):
-    return isinstance(c, float) and c != 0.0 and abs(c) < 1e-3
+    return isinstance(c, float) and c != 0.0 and abs(c) <= 1e-2
 
 
 def absolute_tolerances(fn_node, allow_guard=None):
